@@ -24,12 +24,17 @@ pub struct CatJob {
     /// administrative commands go over HTTP/JSON instead of the binary protocol
     #[serde(default)]
     pub http: bool,
+    /// the HTTP server is up and credentials are also probed over it; commands stay on TCP
+    #[serde(default)]
+    pub http_probe: bool,
 }
 
 pub struct CStepCtx<'a> {
     pub hist: &'a [COp],
     pub idx: usize,
     pub canonical: bool,
+    /// the next operation of the history is a restart
+    pub next_is_restart: bool,
     pub res: &'a mut JobResult,
 }
 
@@ -46,6 +51,7 @@ pub fn run_chistory(
     scratch: &Scratch,
     tpl: &CatTemplate,
     http: bool,
+    http_probe: bool,
     layer: &str,
     prelude: &[COp],
     hist: &[COp],
@@ -59,10 +65,13 @@ pub fn run_chistory(
         property: prop.into(),
         key,
         message: format!("layer {layer}{} cfg[{}] history[{}] step {}: {}", if http { " (over HTTP)" } else { "" }, tpl.cfg.label(), chist(&hist[..(i + 1).min(hist.len())]), i, m),
-        replay: json!({"kind":"cat","cfg": tpl.cfg, "layer": layer, "http": http, "prelude": prelude, "history": &hist[..(i + 1).min(hist.len())]}),
+        replay: json!({"kind":"cat","cfg": tpl.cfg, "layer": layer, "http": http, "http_probe": http_probe, "prelude": prelude, "history": &hist[..(i + 1).min(hist.len())]}),
     };
-    let mut w = match CatWorld::new(scratch, tpl, if http { Transports::BOTH } else { Transports::TCP }) {
-        Ok(w) => w,
+    let mut w = match CatWorld::new(scratch, tpl, if http || http_probe { Transports::BOTH } else { Transports::TCP }) {
+        Ok(mut w) => {
+            w.http_admin = http;
+            w
+        }
         Err(e) => return Some(mk(0, format!("server failed to start on the template directory: {e:?}"), format!("{prop}:start-failed"))),
     };
     res.executions += 1;
@@ -82,7 +91,7 @@ pub fn run_chistory(
                 viol = Some((i, format!("server did not come back: {}", out.err)));
                 break;
             }
-            let mut ctx = CStepCtx { hist: &hist[..=i], idx: i, canonical, res };
+            let mut ctx = CStepCtx { hist: &hist[..=i], idx: i, canonical, next_is_restart: matches!(hist.get(i + 1), Some(COp::Restart)), res };
             let r = oracle.step(&mut w, op, &out, &mut ctx);
             if canonical || digest.is_some() {
                 let k = hash64(&serde_json::to_vec(&(tpl.cfg.label(), layer, tree_digest(&w.dir))).unwrap());
@@ -141,12 +150,12 @@ pub fn run_job(prop: &str, job: &CatJob, factory: COracleFactory) -> JobResult {
         let want_sample = count % 499 == 1;
         let selfcheck = count % 64 == 7;
         let mut d1 = Vec::new();
-        let v = run_chistory(prop, &scratch, &tpl, job.http, &job.layer, &job.prelude, &hist, canonical_from, oracle.as_mut(), &mut res, want_sample, if selfcheck { Some(&mut d1) } else { None });
+        let v = run_chistory(prop, &scratch, &tpl, job.http, job.http_probe, &job.layer, &job.prelude, &hist, canonical_from, oracle.as_mut(), &mut res, want_sample, if selfcheck { Some(&mut d1) } else { None });
         if selfcheck {
             let mut d2 = Vec::new();
             let mut r2 = JobResult::default();
             let mut o2 = factory(&job.oracle, &job.cfg);
-            let v2 = run_chistory(prop, &scratch, &tpl, job.http, &job.layer, &job.prelude, &hist, canonical_from, o2.as_mut(), &mut r2, false, Some(&mut d2));
+            let v2 = run_chistory(prop, &scratch, &tpl, job.http, job.http_probe, &job.layer, &job.prelude, &hist, canonical_from, o2.as_mut(), &mut r2, false, Some(&mut d2));
             res.bump("replay_selfchecks");
             if v.as_ref().map(|x| &x.key) != v2.as_ref().map(|x| &x.key) {
                 res.machinery_error = Some(format!(
@@ -220,6 +229,7 @@ pub fn make_cat_jobs(
             suffix: suffix.to_vec(),
             wall_cap_s,
             http,
+            http_probe: false,
         })
         .collect()
 }
